@@ -2,138 +2,25 @@
 Layer 1 (dispatch loop): Model/Sched.v, Proofs/SchedP.v, Props/C01.v."""
 import json
 
-import l1
-import lib
+import engine
 import projgen
 import runoracle
 import sim
 
-COQ_HEADER = """From Coq Require Import List Arith Bool.
-Import ListNotations.
-From LCC Require Import Base.Util Model.Proj Model.Sched.
-Definition case := (graph * nat * bool * list move)%type.
-Definition ok (c : case) : bool :=
-  let '(g, n, sof, ms) := c in
-  wf_b g (toposort g) &&
-  match run g n sof (init g n) ms with Some s => finished g s | None => false end.
-Definition where_rejected (c : case) : option nat :=
-  let '(g, n, sof, ms) := c in first_rejected g n sof (init g n) ms 0.
-"""
-
-
-def l1_case_term(case, r):
-    L = l1.L1(r["graph"])
-    moves, human = L.moves(r["trace"])
-    n = int(case["options"].get("nb_threads", 1))
-    sof = bool(case["options"].get("stop_on_failure"))
-    return "(%s,\n   %d, %s,\n   %s)" % (l1.c_graph(r["graph"]), n, lib.c_bool(sof), "[" + "; ".join(moves) + "]"), human
-
-
-def l1_file(terms):
-    return COQ_HEADER + "Definition cases : list case := [\n  %s\n].\n" % ";\n  ".join(terms) + \
-        "Eval vm_compute in (find_indexes (fun c => negb (ok c)) cases).\n"
-
-
-L2_HEADER = """From Coq Require Import List Arith Bool.
-Import ListNotations.
-From LCC Require Import Base.Util Model.Proj Model.Sched Model.Graph Model.Fixture Model.GraphOf.
-Definition ok (c : project * bool * graph) : bool :=
-  let '(p, f, g) := c in match graph_of_project p f with Some g' => graph_eqb g' g | None => false end.
-"""
-
-
-def check_l2(run, cases, results, relation="GraphOf.graph_of_project = runner.build_tasks (kinds, order, both dependency lists)"):
-    """Layer-2 correspondence: the model's task graph of the generated project equals the implementation's."""
-    import projcoq
-    terms, ids = [], []
-    for c in cases:
-        r = results.get(c["id"])
-        if not r or not r.get("graph"):
-            continue
-        try:
-            terms.append("(%s,\n %s,\n %s)" % (projcoq.c_project(c["project"]), lib.c_bool(c["options"].get("force_disabled")),
-                                              l1.c_graph(r["graph"])))
-        except l1.Unmodelled as e:
-            run.tie_broken(relation, case={"id": c["id"]}, detail="unmodelled: %s" % e)
-            continue
-        ids.append(c["id"])
-    if not run.model_ok or not terms:
-        return
-    shards = [(terms[i:i + 100], ids[i:i + 100]) for i in range(0, len(terms), 100)]
-    outs = run.coq_eval_many([("l2_%d" % k, L2_HEADER + "Definition cases : list (project * bool * graph) := [\n%s ].\n"
-                               "Eval vm_compute in (find_indexes (fun c => negb (ok c)) cases).\n" % ";\n".join(t))
-                              for k, (t, _) in enumerate(shards)])
-    for (t, idl), (rc, out) in zip(shards, outs):
-        bad = lib.parse_nat_list(out) if rc == 0 else None
-        if bad is None:
-            run.tie_broken(relation, detail="case file did not evaluate: " + out[-1200:])
-            continue
-        for b in bad[:3]:
-            case = next(c for c in cases if c["id"] == idl[b])
-            run.tie_broken(relation, case={"id": idl[b], "project": case["project"], "options": case["options"]},
-                           impl=results[idl[b]]["graph"])
-
-
-def gen_cases(run, n_cases, profile=None, threads=(1, 2, 3, 4), prefix="c"):
-    cases = []
-    for i in range(n_cases):
-        pd = projgen.gen_project(run.rng, **(profile or {}))
-        n = run.rng.choice(threads)
-        cases.append({"id": "%s%d" % (prefix, i), "project": pd, "sched": projgen.gen_sched(run.rng),
-                      "options": {"nb_threads": n, "stop_on_failure": run.rng.random() < 0.2,
-                                  "force_disabled": run.rng.random() < 0.15}})
-    return cases
-
-
-def check_l1(run, cases, results, relation="Sched.run accepts the implementation's task-level trace"):
-    """Layer-1 correspondence for a batch of finished runs."""
-    terms, ids = [], []
-    for c in cases:
-        r = results.get(c["id"])
-        if not r or not r.get("graph") or r.get("outcome", ["?"])[0] not in ("returned", "raised"):
-            continue
-        try:
-            term, human = l1_case_term(c, r)
-        except l1.Unmodelled as e:
-            run.tie_broken(relation, case={"id": c["id"]}, detail="unmodelled: %s" % e)
-            continue
-        terms.append(term)
-        ids.append(c["id"])
-    if not run.model_ok or not terms:
-        return
-    shards = [(terms[i:i + 150], ids[i:i + 150]) for i in range(0, len(terms), 150)]
-    outs = run.coq_eval_many([("l1_%d" % k, l1_file(t)) for k, (t, _) in enumerate(shards)])
-    for (t, idl), (rc, out) in zip(shards, outs):
-        bad = lib.parse_nat_list(out) if rc == 0 else None
-        if bad is None:
-            run.tie_broken(relation, detail="case file did not evaluate: " + out[-1200:])
-            continue
-        for b in bad[:3]:
-            cid = idl[b]
-            case = next(c for c in cases if c["id"] == cid)
-            run.tie_broken(relation, case={"id": cid, "project": case["project"], "options": case["options"], "sched": case["sched"][:60]},
-                           impl={"graph": results[cid]["graph"], "moves": l1_case_term(case, results[cid])[1][:200]})
-
 
 def check(run):
-    run.trusted += [
-        "modelled, not verified: multiprocessing.dummy.Pool as a FIFO job queue served by n workers, queue.Queue as FIFO, "
-        "GIL atomicity of list/set/dict operations; the deterministic-scheduler doubles (harness/detsched.py) stand for them",
-        "user code is assumed to terminate; a task's own behaviour is abstract at this layer (any result the code can produce)",
-    ]
-    run.assume += ["interleavings are explored at the yield points of harness/detsched.py (take, fire, mark, completion put, "
-                   "main get, handler get, joins); pre-emption inside one of these atomic blocks is not exhibited"]
-    run.prove(extra_targets=["theories/Base/Util.vo", "theories/Model/Proj.vo", "theories/Model/Sched.vo",
-                             "theories/Model/GraphOf.vo"])
+    run.trusted += engine.TRUSTED
+    run.assume += engine.ASSUME
+    run.prove(extra_targets=engine.TARGETS)
     n = 120 if run.tier == "quick" else 3000
-    cases = gen_cases(run, n, profile={"p_empty_suite": 0.08}, threads=(1, 2, 3, 4) if run.tier == "quick" else (1, 2, 3, 4, 6, 8))
-    results = sim.run_cases(cases)
+    cases = engine.gen_cases(run, n, profile={"p_empty_suite": 0.08},
+                             threads=(1, 2, 3, 4) if run.tier == "quick" else (1, 2, 3, 4, 6, 8))
+    results = engine.cosim(run, cases)
     for c in cases:
         r = results.get(c["id"]) or {"outcome": ["hang", "no result"]}
         run.evaluations += 1
-        nt = projgen.count_tests(c["project"])
         run.count("threads=%d" % c["options"]["nb_threads"])
-        run.count("tests", nt)
+        run.count("tests", projgen.count_tests(c["project"]))
         run.count("outcome:" + str(r["outcome"][0]))
         if r.get("graph") and len(r["graph"]) > 3 and c["options"]["nb_threads"] > 1:
             run.nontrivial.add(c["id"])
@@ -142,22 +29,21 @@ def check(run):
         if len(run.samples) < 2:
             run.sample({"project": c["project"], "options": c["options"], "sched_prefix": c["sched"][:20],
                         "outcome": r.get("outcome"), "graph": r.get("graph")})
-    check_l1(run, cases, results)
-    check_l2(run, cases, results)
-    run.coverage["rule"] = ("seeded random projects (nested suites, disabled tests/suites, depends_on, fixtures of 4 scopes, hooks, "
-                            "scripts with failures of every kind) run by the real runner under a deterministic scheduler with "
-                            "random/biased schedules and 1..4 (thorough: ..8) threads; non-trivial = more than 3 tasks and more "
-                            "than one thread")
+    run.coverage["rule"] = ("seeded random projects (nested suites, empty suites, disabled tests/suites, depends_on, fixtures of 4 "
+                            "scopes, hooks, scripts with failures of every kind, user threads) run by the real runner under a "
+                            "deterministic scheduler with random/biased schedules and 1..4 (thorough: ..8) threads; "
+                            "non-trivial = more than 3 tasks and more than one thread")
     run.coverage["traces_validated_against_impl"] = len([c for c in cases if results.get(c["id"], {}).get("graph")])
 
 
 def replay(path):
-    import corun
     r = json.load(open(path))
-    case = (r.get("replay") or {}).get("case")
-    if not case:
+    case = (r.get("replay") or {}).get("case") or ((r.get("broken") or [{}])[0].get("case"))
+    if not case or "project" not in case:
         print("nothing to replay")
         return 2
+    case.setdefault("id", "replay")
+    case.setdefault("sched", [])
     res = sim.run_cases([case])[case["id"]]
     hits = runoracle.c01_oracle(case, res)
     print(json.dumps({"outcome": res.get("outcome"), "oracle": hits}, indent=1))
